@@ -369,6 +369,11 @@ macro_rules! harness_buf {
         #[cfg_attr(not(feature = "no_simd"), kani::stub(core::arch::x86_64::__cpuid, crate::models::cpuid))]
         #[cfg_attr(not(feature = "no_simd"), kani::stub(core::arch::x86_64::_xgetbv, crate::models::xgetbv))]
         #[cfg_attr(not(feature = "no_simd"), kani::stub(core::arch::x86_64::_mm_shuffle_epi8, crate::models::mm_shuffle_epi8))]
+        #[cfg_attr(not(feature = "no_simd"), kani::stub(core::arch::x86_64::_mm_load_si128, crate::models::forbid_mm_load_si128))]
+        #[cfg_attr(not(feature = "no_simd"), kani::stub(core::arch::x86_64::_mm_store_si128, crate::models::forbid_mm_store_si128))]
+        #[cfg_attr(not(feature = "no_simd"), kani::stub(core::arch::x86_64::_mm256_load_si256, crate::models::forbid_mm256_load_si256))]
+        #[cfg_attr(not(feature = "no_simd"), kani::stub(core::arch::x86_64::_mm256_store_si256, crate::models::forbid_mm256_store_si256))]
+        #[cfg_attr(not(feature = "no_simd"), kani::stub(core::arch::x86_64::_mm_stream_si128, crate::models::forbid_mm_stream_si128))]
         #[cfg_attr(not(feature = "no_simd"), kani::stub(core::arch::x86_64::_mm256_shuffle_epi8, crate::models::mm256_shuffle_epi8))]
         #[cfg_attr(not(feature = "no_simd"), kani::stub(core::arch::x86_64::_mm_add_epi32, crate::models::mm_add_epi32))]
         #[cfg_attr(not(feature = "no_simd"), kani::stub(core::arch::x86_64::_mm_add_epi64, crate::models::mm_add_epi64))]
